@@ -249,6 +249,46 @@ theorem c18_acquire_keeps_others (s : State) (u : Ups) (j : Inst) (rid : Int) (r
   · intro r hr _ _
     rw [acquire_conds]; exact hr
 
+/-! ## Upstream events and leadership changes -/
+
+/-- **An upstream event** (`UpstreamConditionHandler`) for a listed upstream rewrites the upstream state condition and
+    nothing else: every condition of every instance stays. -/
+theorem c18_upstream_event_keeps_conditions (s : State) (u : Ups) (hl : isListed s u = true) :
+    ∀ r ∈ s.conds, ¬(r.1 = shardOf u ∧ r.2.upstream = u ∧ r.2.name = stateName u) →
+      r ∈ (handle shardOf s u).conds := by
+  intro r hr hne
+  apply handle_keeps_conds shardOf s u r hr
+  intro h
+  rcases h.2.2 with h1 | h1
+  · rw [hl] at h1; cases h1
+  · exact hne ⟨h.1, h.2.1, h1⟩
+
+/-- **`leaderCheck`** takes nothing from the store of a shard this server still leads. -/
+theorem c18_leaderCheck_keeps_led_stores (s : State) :
+    ∀ r ∈ s.conds, s.leaders.contains r.1 = true → s.shards.contains r.1 = true →
+      r ∈ (leaderCheck shardOf s).conds := by
+  intro r hr hlead hstore
+  unfold leaderCheck
+  simp only
+  apply foldl_dropStore_keeps
+  · intro sh hsh e
+    have := (List.mem_filter.1 hsh).2
+    rw [e, hlead] at this; cases this
+  · apply foldl_handle_keeps
+    · intro p hp e
+      have := (List.mem_filter.1 hp).2
+      rw [List.contains_iff_mem] at this
+      have h2 := (List.mem_filter.1 this).2
+      rw [e, hstore] at h2; cases h2
+    · exact hr
+
+/-- the remaining ops (elector and lister changes) touch nothing that is recorded. -/
+theorem c18_environment_ops_touch_nothing (s : State) (sh : Nat) (b : Bool) (u : Ups) (sc : List Schema) :
+    ((setLeader s sh b).hb = s.hb ∧ (setLeader s sh b).conds = s.conds ∧ (setLeader s sh b).fcs = s.fcs) ∧
+    ((list s u sc).hb = s.hb ∧ (list s u sc).conds = s.conds ∧ (list s u sc).fcs = s.fcs) ∧
+    ((unlist s u).hb = s.hb ∧ (unlist s u).conds = s.conds ∧ (unlist s u).fcs = s.fcs) :=
+  ⟨⟨rfl, rfl, rfl⟩, ⟨rfl, rfl, rfl⟩, ⟨rfl, rfl, rfl⟩⟩
+
 /-! ## Histories -/
 
 /-- **Reclaim (`c18_reclaim`)**. Take ANY state `s0` (so: after any history), let `i` send its last heartbeat at `t0`,
@@ -449,10 +489,14 @@ theorem c18_judge_sound (s : State) (op : Op) :
     simp [judgeStep, step, c18_unknown_pass_reclaims, c18_live_safe_unknown_pass,
       (c18_passes_respect_leadership shardOf s 0).2]
   | setLeader sh b => rfl
-  | leaderCheck => rfl
+  | leaderCheck =>
+    have h : LedStoresKept s (leaderCheck shardOf s) := c18_leaderCheck_keeps_led_stores shardOf s
+    simp [judgeStep, step, h]
   | list u sc => rfl
   | unlist u => rfl
-  | handle u => rfl
+  | handle u =>
+    have h : EventKeeps shardOf u s (handle shardOf s u) := c18_upstream_event_keeps_conditions shardOf s u
+    simp [judgeStep, step, h]
 
 
 /-! ## Non-vacuity: a concrete history in which something IS recorded, reclaimed and kept
